@@ -316,7 +316,7 @@ func SSHKnownHosts(info Info, data []byte) (Info, error) {
 	lines := bytes.Split(data, []byte("\n"))
 	var keys []Info
 	for _, l := range lines {
-		if len(bytes.TrimSpace(l)) == 0 {
+		if sshLineIsBlankOrComment(l) {
 			continue
 		}
 		_, hosts, pub, comment, _, err := ssh.ParseKnownHosts(l)
